@@ -684,6 +684,16 @@ LkStep(m0, e) ==
   ELSE IF ~e.same THEN ViolKeep(m, "C13", "refused_contender_modified_files", e, [c |-> e.c, kind |-> e.kind, proc |-> e.proc])
   ELSE m
 
+\* k child processes attempted at the same moment: at most one may have been admitted; when nobody held the
+\* directory exactly one must have been; when it was held none, and nothing may have been modified
+LkRaceStep(m0, e) ==
+  LET m == Cnt(m0, "locktries") IN
+  IF e.oks > 1 THEN ViolKeep(m, "C13", "second_owner_admitted", e, [c |-> 0, kind |-> "race", proc |-> "child", owners |-> e.results])
+  ELSE IF e.owned /\ e.oks > 0 THEN ViolKeep(m, "C13", "second_owner_admitted", e, [c |-> 0, kind |-> "race", proc |-> "child", owners |-> e.results])
+  ELSE IF e.owned /\ ~e.same THEN ViolKeep(m, "C13", "refused_contender_modified_files", e, [c |-> 0, kind |-> "race", proc |-> "child"])
+  ELSE IF ~e.owned /\ e.oks = 0 THEN ViolKeep(m, "C13", "free_directory_refused", e, [c |-> 0, kind |-> "race", proc |-> "child", res |-> e.results])
+  ELSE m
+
 PtStep(m, e) ==
   IF e.p = "set_ev" THEN [m EXCEPT !.evmoved = TRUE, !.evfly = TRUE, !.wactive = TRUE]
   ELSE [m EXCEPT !.wactive = TRUE, !.evfly = FALSE]
@@ -884,6 +894,7 @@ MonStep(m0, e) ==
     [] e.e = "obs" -> ObsStep(m, e)
     [] e.e = "locktry" -> LockTryStep(m, e)
     [] e.e = "lk" -> LkStep(m, e)
+    [] e.e = "lkrace" -> LkRaceStep(m, e)
     [] e.e = "pt" -> PtStep(m, e)
     [] e.e = "crash" -> CrashStep(m, e)
     [] e.e = "probe" -> ProbeStep(m, e)
